@@ -95,7 +95,7 @@ class C02(PipelineCheck):
             'applies 0-2 erasure rounds, writes original and erased texts in the driver\'s layout '
             '(<tmp>/src/<package>/Main.java) and starts javac exactly as JavaCompiler builds the '
             'command, once for the whole batch and once per file that failed in the batch or '
-            'belongs to a sampled third of the runs; distinct non-trivial = distinct program '
+            'belongs to a sampled fifth of the runs; distinct non-trivial = distinct program '
             'texts compiled')
     ASSUMPTIONS = ['javac 17 (the only compiler installed) is the judge',
                    'JAVA_TOOL_OPTIONS only selects a faster JIT tier and GC for the compiler JVM']
@@ -112,8 +112,8 @@ class C02(PipelineCheck):
         c = core.swarm_config(run_seed, langs=('java',), max_depth=self.MAX_DEPTH,
                               rounds=(0, 1, 1, 2))
         r = _pyrandom.Random(h64(run_seed, 'c02'))
-        c['nprog'] = r.choice([1, 2, 2, 3])
-        c['solo_all'] = r.random() < 0.34
+        c['nprog'] = r.choice([1, 2, 3, 4, 5])
+        c['solo_all'] = r.random() < 0.2
         c['only_cp'] = True
         return c
 
